@@ -698,7 +698,60 @@ func runC12(c *Ctx) {
 			okM := fill["Multiaddr"] == spec.multi || fill["Multiaddr"] == "mreq.Multiaddr"
 			okS := fill["Sourceaddr"] == spec.src
 			okI := fill["Interface"] == "" || fill["Interface"] == "mreq.Interface"
+			if prm["iff"] != nil && fill["Interface"] == "" {
+				okI = false // the function was given an interface: the request has to name it
+			}
 			c.check(okM && okS && okI, fn, "request", fn.Pos(), fmt.Sprintf("%v", fill), fmt.Sprintf("%s fills its request as %v: group, interface and source must come from the like-named arguments", spec.fn, fill))
+			// the kernel's refusal reaches the caller: the error returned depends on the errno of the setsockopt call
+			var errnoV ssa.Value
+			eachInstr(fn, func(in ssa.Instruction) {
+				if call, ok := in.(*ssa.Call); ok && call.Call.StaticCallee() != nil && strings.HasPrefix(call.Call.StaticCallee().String(), "syscall.Syscall") {
+					if ex := extractOfInstr(call, 2); ex != nil {
+						errnoV = ex
+					}
+				}
+			})
+			if errnoV != nil {
+				reported := false
+				for _, r := range returnsOf(fn) {
+					if dependsOnLoose(r.Results[len(r.Results)-1], errnoV) {
+						reported = true
+					}
+				}
+				c.check(reported, fn, "errno reported", fn.Pos(), "the error returned carries the errno of the call", spec.fn+" does not hand the errno of its setsockopt call to the caller: a membership the kernel refused is reported as made, the peer waits for traffic that is never delivered (or keeps receiving what it believes it left)")
+			}
+		}
+		// the plain membership requests name the group they were given
+		for _, name := range []string{"prepareAddMembership", "prepareDropMembership"} {
+			fn := p.TryFn(ipv4, name)
+			if fn == nil {
+				continue
+			}
+			var group *ssa.Parameter
+			for _, q := range fn.Params {
+				if pinParamName(q) == "multicastIP" {
+					group = q
+				}
+			}
+			filled := false
+			eachInstr(fn, func(in ssa.Instruction) {
+				call, ok := in.(*ssa.Call)
+				if !ok {
+					return
+				}
+				b, isB := call.Call.Value.(*ssa.Builtin)
+				if !isB || b.Name() != "copy" || group == nil {
+					return
+				}
+				dst := strip(call.Call.Args[0])
+				if sl, ok := dst.(*ssa.Slice); ok {
+					dst = sl.X
+				}
+				if fv, _ := fieldAddrOf(dst); fv != nil && fv.Name() == "Multiaddr" && dependsOnLoose(call.Call.Args[1], group) {
+					filled = true
+				}
+			})
+			c.check(filled, fn, "request", fn.Pos(), "Multiaddr is the group argument", name+" does not copy the group address into the request: the kernel is asked to join or leave 0.0.0.0")
 		}
 		// a net.IP copied into a 4-byte kernel address goes through To4(): net.Interface.Addrs (and most of package net)
 		// hand out IPv4 addresses in their 16-byte form, whose first four bytes are zero
